@@ -15,6 +15,11 @@ CLAIMED = {
    "Every state reachable by <= n commits, any interleaving of pipeline-stage events, and iterator call sequences (open, seek(k) present/absent, seek_to_first, seek_to_last, next, prev) of bounded length with commits/stage events interleaved while the iterator is open; every iterator answer, every point read and a full forward and backward scan after every event are compared with the model. Structure scenarios: macro-transactions over 100 keys and single-key edits from prebuilt depth-2/3 trees with scans after every drain and reopen.",
    "Bounds per scenario in the evidence; on-disk tree shape (sorted, uniform depth) is checked through scans here and by the file parser of C14.",
    "DESIGN.md §3 E1, §4 C04"),
+ "C07": ("seqmc", "model_checking",
+   "explicit-state breadth-first search over the real Db, reference-count model oracle after every event, pipeline model validated in lock-step",
+   "Every state reachable by <= n set/reference/dereference transactions over 2 keys (value a function of the key), any interleaving of pipeline-stage events and reopen, on a ref-counted column with hash and with btree index; oracle: count>0 => readable with its value at every state; at states with an empty commit queue and after reopen readable <=> count>0 and (hash index) value iteration = multiset of live (value,count).",
+   "Bounds per scenario in the evidence. Known finding F-C07-iter-lag (iteration lags until records are enacted) is reported as KNOWN-FINDING; iteration mismatches at fully enacted states and after reopen are violations. Crash clause: C02/C12 image sets include this column kind (when built). Count saturation at u32::MAX is not driven (would need 2^32 operations or a crafted file).",
+   "DESIGN.md §3 E1, §4 C07"),
 }
 
 NOT_YET = {}
